@@ -27,6 +27,8 @@ def h13_chain(S, attempts=3):
     # the first attempt may also "succeed" with a value the converter cannot encode: that counts as a failed execution
     unenc0 = S.flag("attempt0_returns_unencodable")
     no_text = S.flag("exceptions_carry_no_text")            # `raise ValueError()`: the recorded text is the empty string
+    recurring = S.flag("recurring")                         # every completed iteration is rescheduled: the next run overwrites the bucket again
+    HOUR = 3600 * SEC
     t0 = S.int("start", Y2000, Y2050)
     gaps = [S.int(f"gap{i}", 0, 3600 * SEC) for i in range(2 * attempts)]
     clock = PinnedClock(t0)
@@ -58,9 +60,11 @@ def h13_chain(S, attempts=3):
             return {"attempt": i}
 
         actor = mk_actor(fn, converter=BasicConverter, retry_policy=lambda retry_number=1: real_timedelta(0))
-        job = Job("job", retries=attempts - 1, store_result=enabled, result_id="res-1",
+        job = Job("job", retries=attempts - 1, store_result=enabled, result_id="res-1", deferred_by=real_timedelta(hours=1) if recurring else None,
                   result_ttl=S.timedelta_us(rttl) if has_ttl else None, id_="m1", _connection=w.conn)
         await job.enqueue()
+        if recurring:
+            clock.advance(HOUR + SEC)
         proc = _Processor(w.conn)
         cons = w.broker.get_consumer("default", ["job"])
         await cons.start()
@@ -82,7 +86,7 @@ def h13_chain(S, attempts=3):
                                 "ops": [c["op"] for c in w.rec.calls[before_calls:] if c["id"] == "m1" and c["op"] != "enqueue"],
                                 "places": place_names(w.places(), "m1"), "started_at": started_at, "finished_at": finished_at,
                                 "stores": list(stores)})
-            clock.advance(gaps[2 * i + 1] + 1)   # time passes before the retry is delivered
+            clock.advance(gaps[2 * i + 1] + 1 + (HOUR if recurring else 0))   # time passes before the retry (the next iteration) is delivered
         out["n"] = len(runs)
 
     run_async(main, clock=clock)
@@ -90,10 +94,13 @@ def h13_chain(S, attempts=3):
     for s in out["snap"]:
         i = s["i"]
         S.cover("attempt-%d" % i)
+        if recurring and i >= 1:
+            S.cover("recurring-later-run")
         unenc = bool(unenc0) and i == 0
         failed = True if unenc else bool(fails[i])
         # disposition is what the ladder prescribes, whatever happened to the store
-        want = "requeue" if (failed and i < attempts - 1) else ("nack" if failed else "ack")
+        # (the retry counter restarts after a rescheduled iteration, so on this chain a recurring job is requeued every time)
+        want = "requeue" if (recurring or (failed and i < attempts - 1)) else ("nack" if failed else "ack")
         S.check("disposition-unaffected-by-result-store", s["ops"] == [want], info=f"attempt {i}: {s['ops']} expected {want}; store error {s['err']!r}")
         S.check("place-unaffected-by-result-store", s["places"] == {"requeue": ["delayed"], "nack": ["dead"], "ack": []}[want], info=str(s["places"]))
         if not enabled:
@@ -123,7 +130,7 @@ def h13_chain(S, attempts=3):
         S.check("times-are-this-attempts", all_of(b.started_when >= s["started_at"] * 1000, b.finished_when <= s["finished_at"] * 1000))
         S.check("bucket-ttl-as-configured", (b.ttl is None) if not has_ttl else (b.ttl is not None and us_of_td(b.ttl) == rttl))
         S.check("bucket-timestamp-is-store-time", us_of(b.timestamp) == s["finished_at"])
-        if not failed or i == attempts - 1:
+        if not recurring and (not failed or i == attempts - 1):
             break
 
 
@@ -341,7 +348,7 @@ HARNESSES = [
                     "store faults": "each store_bucket call fails or not", "clock": "start 2000..2050, symbolic gaps up to 1 h during and between attempts"},
             functions=["_processor.py:_Processor.process", "_processor.py:_Processor.set_result_bucket", "job.py:Job.result",
                        "connections/in_memory/bucket_broker.py:InMemoryBucketBroker.store_bucket"],
-            covers=["attempt-0", "attempt-1", "store-failed"]),
+            covers=["attempt-0", "attempt-1", "store-failed", "recurring-later-run"]),
     Harness(name="H13-worker", scenario=h13_worker, workers=4,
             bounds={"two messages": "first one's store fails or not, first actor fails or not"},
             functions=["worker.py:Worker.run"], covers=["worker-ran"]),
